@@ -1,5 +1,7 @@
 (* C16: what the compaction writes, read back, is exactly the HasLock-filtered records in order (values aligned,
-   nothing torn); refutations for the crash points of clearRewriteAofFiles. *)
+   nothing torn); refutations for the crash points of clearRewriteAofFiles; the entry guard of rewriteAofFiles (at most
+   one compaction at a time); compaction at a busy moment (its mutations commute with the appends of the rest of the
+   server, every busy crash image is a quiescent crash image with appends on top). *)
 From Coq Require Import List NArith ZArith Bool Lia PeanoNat.
 From Slock Require Import Aof.AofRec Aof.AofFile Aof.AofLoad Aof.AofProofs Aof.Rewrite.
 Import ListNotations.
@@ -92,3 +94,384 @@ Theorem refuted_value_file_renamed_separately :
   recover today 4096 (compact all_live today 4096 true c_dir_v 1 w_now) w_now
     = ROk [(mark_rewrited (w_rec 1 0x2000), Some (w_val 7))].
 Proof. repeat split; vm_compute; reflexivity. Qed.
+
+(* ================================================================== compactions do not overlap (entry guard) *)
+
+(* ------------------------------------------------------------------ the entry guard *)
+Definition ginv (g : guard) : Prop :=
+  (g_rewriting g = true /\ g_active g = 1%nat) \/ (g_rewriting g = false /\ g_active g = 0%nat).
+
+Lemma gstep_inv g e : ginv g -> ginv (gstep true g e).
+Proof.
+  destruct g as [r w a]. unfold ginv. cbn [g_rewriting g_active].
+  intros [[-> ->]|[-> ->]]; destruct e; cbn; auto.
+Qed.
+
+Lemma grun_inv evs : forall g, ginv g -> ginv (grun true evs g).
+Proof. induction evs as [|e tl IH]; intros g H; [exact H|]. apply IH, gstep_inv, H. Qed.
+
+Theorem guard_at_most_one evs :
+  let g := grun true evs g_idle in
+  (g_active g <= 1)%nat /\ (g_rewriting g = true <-> g_active g = 1%nat).
+Proof.
+  cbv zeta. destruct (grun_inv evs g_idle) as [[H1 H2]|[H1 H2]]; [right; split; reflexivity| |].
+  - rewrite H1, H2. split; [lia|tauto].
+  - rewrite H1, H2. split; [lia|]. split; discriminate.
+Qed.
+
+(* a request while a compaction runs changes nothing at all: no flag, no second compaction *)
+Theorem guard_request_while_rewriting g : g_rewriting g = true -> gstep true g GRequest = g /\ gmark_of true g GRequest = [].
+Proof. intros H. unfold gstep, gmark_of, g_blocked. rewrite H. split; reflexivity. Qed.
+
+(* a request in any other state starts one, and clears the wait flag *)
+Theorem guard_request_when_not_rewriting g : g_rewriting g = false ->
+  gstep true g GRequest = mkguard true false (S (g_active g)) /\ gmark_of true g GRequest = [GStarted].
+Proof. intros H. unfold gstep, gmark_of, g_blocked. rewrite H. split; reflexivity. Qed.
+
+Lemma glog_alt evs : forall g, ginv g -> alternates (negb (g_rewriting g)) (glog true evs g) = true.
+Proof.
+  induction evs as [|e tl IH]; intros g H; [reflexivity|].
+  cbn [glog]. pose proof (gstep_inv g e H) as H'. specialize (IH _ H').
+  destruct g as [r w a]. destruct H as [[Hr Ha]|[Hr Ha]]; cbn [g_rewriting g_active] in Hr, Ha; subst r a;
+    destruct e; cbn in *; exact IH.
+Qed.
+
+(* every compaction starts after the previous one has finished: Started / Finished alternate in every history *)
+Theorem guard_starts_alternate evs : alternates true (glog true evs g_idle) = true.
+Proof. apply (glog_alt evs g_idle). right; split; reflexivity. Qed.
+
+(* the switch matters: a guard on the other flag lets two compactions run at once *)
+Theorem guard_on_other_flag_overlaps :
+  g_active (grun false [GRequest; GRequest] g_idle) = 2%nat /\ alternates true (glog false [GRequest; GRequest] g_idle) = false.
+Proof. split; reflexivity. Qed.
+
+(* ================================================================== compaction at a busy moment *)
+
+Lemma fname_eqb_eq a b : fname_eqb a b = true <-> a = b.
+Proof.
+  destruct a, b; cbn; try (split; intros H; (discriminate H || reflexivity));
+    rewrite N.eqb_eq; (split; intros H; [subst; reflexivity|injection H; auto]).
+Qed.
+
+Lemma fname_eqb_refl a : fname_eqb a a = true.
+Proof. apply fname_eqb_eq; reflexivity. Qed.
+
+Lemma fname_eqb_neq a b : fname_eqb a b = false <-> a <> b.
+Proof.
+  split; intros H.
+  - intros ->. rewrite fname_eqb_refl in H. discriminate.
+  - destruct (fname_eqb a b) eqn:E; [|reflexivity]. apply fname_eqb_eq in E. contradiction.
+Qed.
+
+Lemma dget_ddel d f g : dget (ddel d f) g = if fname_eqb f g then None else dget d g.
+Proof.
+  induction d as [|[h b] tl IH]; cbn [ddel dget]; [destruct (fname_eqb f g); reflexivity|].
+  destruct (fname_eqb h f) eqn:E1.
+  - rewrite IH. apply fname_eqb_eq in E1. subst h. destruct (fname_eqb f g); reflexivity.
+  - cbn [dget]. rewrite IH. destruct (fname_eqb h g) eqn:E2; [|reflexivity].
+    apply fname_eqb_eq in E2. subst h. rewrite fname_eqb_neq in E1.
+    destruct (fname_eqb f g) eqn:E3; [|reflexivity]. apply fname_eqb_eq in E3. subst; contradiction.
+Qed.
+
+Lemma dget_dset d f b g : dget (dset d f b) g = if fname_eqb f g then Some b else dget d g.
+Proof. unfold dset. cbn [dget]. rewrite dget_ddel. destruct (fname_eqb f g); reflexivity. Qed.
+
+Lemma dget_apply_mut d m h :
+  dget (apply_mut d m) h =
+  match m with
+  | MPut f b => if fname_eqb f h then Some b else dget d h
+  | MRemove f => if fname_eqb f h then None else dget d h
+  | MRename f g => match dget d f with
+                   | Some b => if fname_eqb g h then Some b else if fname_eqb f h then None else dget d h
+                   | None => dget d h
+                   end
+  end.
+Proof.
+  destruct m as [f b|f|f g]; cbn [apply_mut]; [apply dget_dset|apply dget_ddel|].
+  destruct (dget d f); [|reflexivity]. rewrite dget_dset, dget_ddel. reflexivity.
+Qed.
+
+Lemma apply_mut_equiv d1 d2 m : dir_equiv d1 d2 -> dir_equiv (apply_mut d1 m) (apply_mut d2 m).
+Proof. intros H h. rewrite !dget_apply_mut. destruct m; rewrite ?H; reflexivity. Qed.
+
+Lemma run_steps_equiv ms : forall d1 d2, dir_equiv d1 d2 -> dir_equiv (run_steps d1 ms) (run_steps d2 ms).
+Proof. induction ms as [|m tl IH]; intros d1 d2 H; [exact H|]. apply IH, apply_mut_equiv, H. Qed.
+
+Lemma dir_equiv_refl d : dir_equiv d d. Proof. intros f; reflexivity. Qed.
+Lemma dir_equiv_trans a b c : dir_equiv a b -> dir_equiv b c -> dir_equiv a c.
+Proof. intros H1 H2 f. rewrite H1. apply H2. Qed.
+Lemma dir_equiv_sym a b : dir_equiv a b -> dir_equiv b a.
+Proof. intros H f. symmetry. apply H. Qed.
+
+Definition disjoint_mut (m1 m2 : mutation) : Prop := forall f, In f (touches m1) -> In f (touches m2) -> False.
+
+(* a file a mutation does not touch keeps its content *)
+Lemma apply_mut_frame d m h : ~ In h (touches m) -> dget (apply_mut d m) h = dget d h.
+Proof.
+  intros H. rewrite dget_apply_mut. destruct m as [f b|f|f g]; cbn [touches In] in H.
+  - assert (E : fname_eqb f h = false) by (apply fname_eqb_neq; tauto). rewrite E. reflexivity.
+  - assert (E : fname_eqb f h = false) by (apply fname_eqb_neq; tauto). rewrite E. reflexivity.
+  - assert (E : fname_eqb f h = false) by (apply fname_eqb_neq; tauto).
+    assert (E' : fname_eqb g h = false) by (apply fname_eqb_neq; tauto). rewrite E, E'. destruct (dget d f); reflexivity.
+Qed.
+
+Lemma run_steps_frame ms : forall d h, (forall m, In m ms -> ~ In h (touches m)) -> dget (run_steps d ms) h = dget d h.
+Proof.
+  induction ms as [|m tl IH]; intros d h H; [reflexivity|].
+  cbn [run_steps fold_left]. change (fold_left apply_mut tl (apply_mut d m)) with (run_steps (apply_mut d m) tl).
+  rewrite IH by (intros m' Hm; apply H; right; exact Hm). apply apply_mut_frame, H. left; reflexivity.
+Qed.
+
+(* the new content of a touched file depends only on the touched files *)
+Lemma apply_mut_local d d' m h : (forall f, In f (touches m) -> dget d f = dget d' f) -> In h (touches m) ->
+  dget (apply_mut d m) h = dget (apply_mut d' m) h.
+Proof.
+  intros A Hh. rewrite !dget_apply_mut. destruct m as [f b|f|f g]; cbn [touches] in A.
+  - rewrite (A h Hh). reflexivity.
+  - rewrite (A h Hh). reflexivity.
+  - rewrite (A f (or_introl eq_refl)), (A h Hh). reflexivity.
+Qed.
+
+Lemma fname_eq_dec (a b : fname) : {a = b} + {a <> b}.
+Proof. destruct (fname_eqb a b) eqn:E; [left; apply fname_eqb_eq, E|right; apply fname_eqb_neq, E]. Qed.
+
+(* mutations on disjoint sets of files commute *)
+Lemma apply_mut_comm d m1 m2 : disjoint_mut m1 m2 ->
+  dir_equiv (apply_mut (apply_mut d m1) m2) (apply_mut (apply_mut d m2) m1).
+Proof.
+  intros D h.
+  destruct (in_dec fname_eq_dec h (touches m1)) as [H1|H1], (in_dec fname_eq_dec h (touches m2)) as [H2|H2].
+  - destruct (D h H1 H2).
+  - rewrite (apply_mut_frame _ m2 h H2). apply apply_mut_local; [|exact H1].
+    intros f Hf. symmetry. apply apply_mut_frame. intros Hf2. exact (D f Hf Hf2).
+  - rewrite (apply_mut_frame _ m1 h H1). symmetry. apply apply_mut_local; [|exact H2].
+    intros f Hf. symmetry. apply apply_mut_frame. intros Hf1. exact (D f Hf1 Hf).
+  - rewrite !apply_mut_frame by assumption. reflexivity.
+Qed.
+
+Lemma commute_past x l : (forall c, In c l -> disjoint_mut c x) ->
+  forall d, dir_equiv (run_steps (apply_mut d x) l) (apply_mut (run_steps d l) x).
+Proof.
+  induction l as [|c tl IH]; intros D d; [apply dir_equiv_refl|].
+  cbn [run_steps fold_left]. change (fold_left apply_mut tl ?dd) with (run_steps dd tl).
+  eapply dir_equiv_trans; [|apply IH; intros c' Hc; apply D; right; exact Hc].
+  apply run_steps_equiv. apply dir_equiv_sym, apply_mut_comm. apply D. left; reflexivity.
+Qed.
+
+(* any interleaving of the compaction's mutations [cs] with mutations [fs] on other files = first cs, then fs *)
+Theorem merge_commutes cs fs ms : merge cs fs ms -> (forall c f, In c cs -> In f fs -> disjoint_mut c f) ->
+  forall d, dir_equiv (run_steps d ms) (run_steps (run_steps d cs) fs).
+Proof.
+  induction 1 as [|x l r m M IH|x l r m M IH]; intros D d.
+  - apply dir_equiv_refl.
+  - cbn [run_steps fold_left]. change (fold_left apply_mut ?ll ?dd) with (run_steps dd ll).
+    apply IH. intros c f Hc Hf. apply D; [right; exact Hc|exact Hf].
+  - cbn [run_steps fold_left]. change (fold_left apply_mut ?ll ?dd) with (run_steps dd ll).
+    eapply dir_equiv_trans; [apply IH; intros c f Hc Hf; apply D; [exact Hc|right; exact Hf]|].
+    apply run_steps_equiv. apply commute_past. intros c Hc. apply D; [exact Hc|left; reflexivity].
+Qed.
+
+Lemma run_steps_app d a b : run_steps d (a ++ b) = run_steps (run_steps d a) b.
+Proof. unfold run_steps. apply fold_left_app. Qed.
+
+(* ... and = first fs, then cs *)
+Theorem merge_commutes' cs fs ms : merge cs fs ms -> (forall c f, In c cs -> In f fs -> disjoint_mut c f) ->
+  forall d, dir_equiv (run_steps d ms) (run_steps (run_steps d fs) cs).
+Proof.
+  intros M D d. 
+  assert (M' : merge fs cs ms) by (clear D; induction M; constructor; assumption).
+  apply (merge_commutes fs cs ms M'). intros c f Hc Hf g H1 H2. exact (D f c Hf Hc g H2 H1).
+Qed.
+
+(* a prefix of an interleaving interleaves prefixes: crash images of a busy compaction *)
+Lemma merge_prefix {A} (l r m : list A) : merge l r m -> forall n, exists k j, merge (firstn k l) (firstn j r) (firstn n m).
+Proof.
+  induction 1 as [|x l r m M IH|x l r m M IH]; intros n.
+  - exists 0%nat, 0%nat. destruct n; constructor.
+  - destruct n as [|n]; [exists 0%nat, 0%nat; constructor|]. destruct (IH n) as (k & j & Hm).
+    exists (S k), j. cbn [firstn]. constructor. exact Hm.
+  - destruct n as [|n]; [exists 0%nat, 0%nat; constructor|]. destruct (IH n) as (k & j & Hm).
+    exists k, (S j). cbn [firstn]. constructor. exact Hm.
+Qed.
+
+(* ------------------------------------------------------------------ recover only looks at the content of the files *)
+Lemma in_append_indices d i : In i (append_indices d) <-> exists b, dget d (FAppend i) = Some b.
+Proof.
+  induction d as [|[g b] tl IH]; cbn [append_indices flat_map dget].
+  - split; [intros []|intros [b H]; discriminate].
+  - change (flat_map (fun p : fname * bytes => match fst p with FAppend i0 => [i0] | _ => [] end) tl) with (append_indices tl).
+    rewrite in_app_iff, IH. cbn [fst]. destruct (fname_eqb g (FAppend i)) eqn:E.
+    + apply fname_eqb_eq in E. subst g. split; [intros _; exists b; reflexivity|intros _; left; left; reflexivity].
+    + split.
+      * intros [H|H]; [|exact H]. destruct g; cbn in H; try tauto. destruct H as [->|[]]. rewrite fname_eqb_refl in E. discriminate.
+      * intros H. right. exact H.
+Qed.
+
+Lemma nmin_le l : nmin l <= 0xffffffff.
+Proof. induction l as [|x tl IH]; cbn; [reflexivity|]. unfold nmin in IH. lia. Qed.
+Lemma nmin_lb l x : In x l -> nmin l <= x.
+Proof. induction l as [|y tl IH]; [intros []|]. intros [->|H]; cbn; [lia|]. specialize (IH H). unfold nmin in IH. lia. Qed.
+Lemma nmin_in l : In (nmin l) l \/ nmin l = 0xffffffff.
+Proof.
+  induction l as [|y tl IH]; [right; reflexivity|]. cbn. fold (nmin tl).
+  destruct (N.min_spec y (nmin tl)) as [[_ ->]|[_ ->]]; [left; left; reflexivity|]. destruct IH; [left; right; assumption|right; assumption].
+Qed.
+Lemma nmax_ub l x : In x l -> x <= nmax l.
+Proof. induction l as [|y tl IH]; [intros []|]. intros [->|H]; cbn; [lia|]. specialize (IH H). unfold nmax in IH. lia. Qed.
+Lemma nmax_in l : In (nmax l) l \/ nmax l = 0.
+Proof.
+  induction l as [|y tl IH]; [right; reflexivity|]. cbn. fold (nmax tl).
+  destruct (N.max_spec y (nmax tl)) as [[_ ->]|[_ ->]]; [destruct IH; [left; right; assumption|right; assumption]|left; left; reflexivity].
+Qed.
+
+Lemma nmin_same l1 l2 : (forall x, In x l1 <-> In x l2) -> nmin l1 = nmin l2.
+Proof.
+  intros H. apply N.le_antisymm.
+  - destruct (nmin_in l2) as [I|E]; [apply nmin_lb, H, I|rewrite E; apply nmin_le].
+  - destruct (nmin_in l1) as [I|E]; [apply nmin_lb, H, I|rewrite E; apply nmin_le].
+Qed.
+Lemma nmax_same l1 l2 : (forall x, In x l1 <-> In x l2) -> nmax l1 = nmax l2.
+Proof.
+  intros H. apply N.le_antisymm.
+  - destruct (nmax_in l1) as [I|E]; [apply nmax_ub, H, I|rewrite E; apply N.le_0_l].
+  - destruct (nmax_in l2) as [I|E]; [apply nmax_ub, H, I|rewrite E; apply N.le_0_l].
+Qed.
+
+Lemma existsb_same i l1 l2 : (forall x, In x l1 <-> In x l2) -> existsb (N.eqb i) l1 = existsb (N.eqb i) l2.
+Proof.
+  intros H. apply eq_true_iff_eq. rewrite !existsb_exists. split; intros (x & Hx & E); exists x; (split; [apply H, Hx|exact E]).
+Qed.
+
+Lemma forallb_ext' {A} (f g : A -> bool) l : (forall x, f x = g x) -> forallb f l = forallb g l.
+Proof. intros H. induction l as [|x tl IH]; [reflexivity|]. cbn. rewrite H, IH. reflexivity. Qed.
+
+Lemma find_aof_files_equiv d1 d2 : dir_equiv d1 d2 -> find_aof_files d1 = find_aof_files d2.
+Proof.
+  intros H. unfold find_aof_files. rewrite (H FRewrite).
+  assert (S : forall x, In x (append_indices d1) <-> In x (append_indices d2)).
+  { intros x. rewrite !in_append_indices, H. reflexivity. }
+  rewrite (nmin_same _ _ S), (nmax_same _ _ S).
+  destruct (append_indices d1) as [|a1 t1] eqn:E1, (append_indices d2) as [|a2 t2] eqn:E2.
+  - reflexivity.
+  - destruct (proj2 (S a2) (or_introl eq_refl)).
+  - destruct (proj1 (S a1) (or_introl eq_refl)).
+  - destruct (0x7fffffff <=? _); [reflexivity|].
+    match goal with |- (if forallb ?f ?w then _ else _) = (if forallb ?g ?w then _ else _) =>
+      replace (forallb f w) with (forallb g w); [reflexivity|] end.
+    apply forallb_ext'. intros i. symmetry. apply existsb_same, S.
+Qed.
+
+Theorem recover_equiv fx bs d1 d2 now : dir_equiv d1 d2 -> recover fx bs d1 now = recover fx bs d2 now.
+Proof.
+  intros H. unfold recover. rewrite (find_aof_files_equiv d1 d2 H).
+  destruct (find_aof_files d2) as [apps rw| |]; try reflexivity.
+  match goal with |- match load_files _ _ _ (map ?f ?l) _ with _ => _ end = match load_files _ _ _ (map ?g ?l) _ with _ => _ end =>
+    replace (map f l) with (map g l); [reflexivity|] end.
+  apply map_ext. intros f. rewrite !H. reflexivity.
+Qed.
+
+(* ------------------------------------------------------------------ the footprint of a compaction *)
+Lemma rewrite_inputs_local d cur l f : rewrite_inputs d cur = Some l -> In f l ->
+  local_file cur f = true /\ local_file cur (dat_of f) = true /\ f <> FTmp /\ f <> FTmpDat /\ dat_of f <> FTmp /\ dat_of f <> FTmpDat.
+Proof.
+  unfold rewrite_inputs. destruct (find_aof_files d) as [apps rw| |]; try discriminate.
+  intros E. injection E as <-. rewrite in_app_iff, in_map_iff. intros [H|(i & <- & H)].
+  - destruct rw; [|destruct H]. destruct H as [<-|[]]. cbn. repeat split; discriminate.
+  - apply filter_In in H. destruct H as [_ H]. cbn. rewrite H. repeat split; discriminate.
+Qed.
+
+(* appends go to a file that is not among the inputs: no input has the index of the current (or a later) append file *)
+Theorem rewrite_inputs_exclude_current d cur l i : rewrite_inputs d cur = Some l -> cur <= i ->
+  ~ In (FAppend i) l /\ ~ In (FAppendDat i) (map dat_of l).
+Proof.
+  intros E Hi. split.
+  - intros H. destruct (rewrite_inputs_local d cur l _ E H) as [L _]. cbn in L. apply N.ltb_lt in L. lia.
+  - rewrite in_map_iff. intros (f & Ef & H). destruct (rewrite_inputs_local d cur l _ E H) as (_ & L & _).
+    rewrite Ef in L. cbn in L. apply N.ltb_lt in L. lia.
+Qed.
+
+Definition local_mut (cur : N) (m : mutation) : Prop := forall f, In f (touches m) -> local_file cur f = true.
+
+Section Local.
+  Variable has_lock : bytes -> option bytes -> bool.
+  Variable fx : fixes.
+  Variable bs : nat.
+
+  Theorem compact_steps_local d cur now : Forall (local_mut cur) (compact_steps has_lock fx bs false d cur now).
+  Proof.
+    unfold compact_steps. cbn [run_steps fold_left app].
+    destruct (rewrite_inputs d cur) as [[|f0 tl]|] eqn:E; try constructor.
+    destruct (build_tmp has_lock fx bs d (f0 :: tl) now) as [[a dd] ok].
+    assert (T : Forall (local_mut cur) [MPut FTmp a; MPut FTmpDat dd]).
+    { repeat constructor; intros f [<-|[]]; reflexivity. }
+    destruct ok; [|exact T].
+    change (MPut FTmp a :: MPut FTmpDat dd :: ?x) with ([MPut FTmp a; MPut FTmpDat dd] ++ x).
+    apply Forall_app. split; [exact T|]. apply Forall_app. split.
+    - apply Forall_forall. intros m Hm. apply in_flat_map in Hm. destruct Hm as (f & Hf & Hm).
+      destruct (rewrite_inputs_local d cur _ f E Hf) as (L1 & L2 & _).
+      destruct Hm as [<-|[<-|[]]]; intros g [<-|[]]; assumption.
+    - repeat constructor; intros f [<-|[<-|[]]]; reflexivity.
+  Qed.
+
+  (* RewriteAofFile(true) = the rotation (under aofGlock, in the caller) followed by the compaction goroutine, which
+     sees the directory after the rotation and the new index *)
+  Lemma compact_steps_rotate d cur now :
+    compact_steps has_lock fx bs true d cur now =
+    [MPut (FAppend (cur + 1)) header; MPut (FAppendDat (cur + 1)) []] ++
+    compact_steps has_lock fx bs false (run_steps d [MPut (FAppend (cur + 1)) header; MPut (FAppendDat (cur + 1)) []]) (cur + 1) now.
+  Proof.
+    unfold compact_steps. cbn [app]. set (d1 := run_steps d _).
+    change (run_steps d1 []) with d1.
+    destruct (rewrite_inputs d1 (cur + 1)) as [[|f0 tl]|]; try reflexivity.
+    destruct (build_tmp has_lock fx bs d1 (f0 :: tl) now) as [[a dd] ok]. destruct ok; reflexivity.
+  Qed.
+End Local.
+
+Lemma in_firstn {A} (x : A) n l : In x (firstn n l) -> In x l.
+Proof. revert l. induction n as [|n IH]; intros [|y tl]; cbn; try tauto. intros [->|H]; [left; reflexivity|right; apply IH, H]. Qed.
+
+Lemma local_foreign_disjoint cur c f : local_mut cur c -> foreign_mut cur f = true -> disjoint_mut c f.
+Proof.
+  intros L F g Hc Hf. specialize (L g Hc).
+  destruct f as [h b|h|h h']; cbn in F; try discriminate.
+  destruct h; try discriminate; cbn [touches In] in Hf; destruct Hf as [<-|[]]; cbn in L;
+    apply N.ltb_lt in L; apply N.leb_le in F; lia.
+Qed.
+
+(* busy compaction: whatever the interleaving of the compaction goroutine's mutations with the appends / rotations of
+   the rest of the server, (1) the directory is the one of the quiescent compaction with the appends on top, and
+   (2) every crash image is a crash image of the quiescent compaction with a prefix of the appends on top, and a restart
+   recovers the same from both *)
+Theorem busy_compaction has_lock fx bs rbs d cur now fs ms :
+  let cs := compact_steps has_lock fx bs false d cur now in
+  Forall (fun f => foreign_mut cur f = true) fs -> merge cs fs ms ->
+  dir_equiv (run_steps d ms) (run_steps (compact has_lock fx bs false d cur now) fs) /\
+  dir_equiv (run_steps d ms) (run_steps (run_steps d fs) cs) /\
+  forall n, exists k j,
+    dir_equiv (run_steps d (firstn n ms)) (run_steps (crash_after has_lock fx bs false d cur now k) (firstn j fs)) /\
+    forall rnow, recover fx rbs (run_steps d (firstn n ms)) rnow
+                 = recover fx rbs (run_steps (crash_after has_lock fx bs false d cur now k) (firstn j fs)) rnow.
+Proof.
+  intros cs F M.
+  assert (D : forall l r, (forall c, In c l -> In c cs) -> (forall f, In f r -> In f fs) ->
+                          forall c f, In c l -> In f r -> disjoint_mut c f).
+  { intros l r Hl Hr c f Hc Hf. apply (local_foreign_disjoint cur).
+    - pose proof (compact_steps_local has_lock fx bs d cur now) as L. rewrite Forall_forall in L. apply L, Hl, Hc.
+    - rewrite Forall_forall in F. apply F, Hr, Hf. }
+  split; [|split].
+  - apply (merge_commutes cs fs ms M). apply (D cs fs); auto.
+  - apply (merge_commutes' cs fs ms M). apply (D cs fs); auto.
+  - intros n. destruct (merge_prefix cs fs ms M n) as (k & j & Mp). exists k, j.
+    assert (E : dir_equiv (run_steps d (firstn n ms)) (run_steps (crash_after has_lock fx bs false d cur now k) (firstn j fs))).
+    { apply (merge_commutes _ _ _ Mp). apply D; intros x Hx; eapply in_firstn; exact Hx. }
+    split; [exact E|]. intros rnow. apply recover_equiv, E.
+Qed.
+
+(* the files outside the footprint are never changed by the compaction: the current append file keeps what was appended *)
+Theorem compaction_frame has_lock fx bs d cur now k f : local_file cur f = false ->
+  dget (crash_after has_lock fx bs false d cur now k) f = dget d f.
+Proof.
+  intros H. unfold crash_after. apply run_steps_frame. intros m Hm Hf.
+  pose proof (compact_steps_local has_lock fx bs d cur now) as L. rewrite Forall_forall in L.
+  specialize (L m (in_firstn _ _ _ Hm) f Hf). rewrite L in H. discriminate.
+Qed.
